@@ -7,7 +7,7 @@ from harness.c13 import translate as TR
 
 ID = 'C13'
 HERE = os.path.dirname(os.path.abspath(__file__))
-CASES = {'quick': 9000, 'thorough': 160000}
+CASES = {'quick': 15000, 'thorough': 170000}
 PARALLEL = True
 PROOF_TIMEOUT = 900
 ALLOWED_AXIOMS = ()
@@ -58,9 +58,11 @@ PINS_SPEC = {
     'pyramid/router.py': ['Router.handle_request', 'Router.invoke_request', 'Router.finish_request',
                           'Router.invoke_subrequest', 'Router.request_context', 'Router.__call__',
                           'default_execution_policy', 'Router.__init__'],
-    'pyramid/threadlocal.py': ['ThreadLocalManager', 'RequestContext', 'get_current_request'],
-    'pyramid/request.py': ['CallbackMethodsMixin'],
-    'pyramid/view.py': ['_call_view', 'ViewMethodsMixin.invoke_exception_view'],
+    'pyramid/threadlocal.py': ['ThreadLocalManager', 'RequestContext', 'get_current_request', 'get_current_registry',
+                               'defaults'],
+    'pyramid/request.py': ['CallbackMethodsMixin', 'add_global_response_headers', 'RequestLocalCache.set'],
+    'pyramid/view.py': ['_call_view', 'ViewMethodsMixin.invoke_exception_view', '_find_views', 'render_view_to_response'],
+    'pyramid/scripting.py': ['AppEnvironment.__enter__', '_make_request'],
     'pyramid/tweens.py': ['_error_handler', 'excview_tween_factory'],
     'pyramid/util.py': ['hide_attrs'],
     'pyramid/viewderivers.py': ['_secured_view', 'rendered_view'],
@@ -69,9 +71,112 @@ PINS_SPEC = {
 }
 
 
+ANCHOR_FILES = ['pyramid/router.py', 'pyramid/threadlocal.py', 'pyramid/request.py', 'pyramid/view.py',
+                'pyramid/tweens.py', 'pyramid/config/__init__.py', 'pyramid/config/actions.py',
+                'pyramid/config/routes.py', 'pyramid/scripting.py']
+# identifiers through which a function could touch the thread-local stack, a scope, or the callback deques
+STACK_IDS = {'manager', 'RequestContext', 'begin', 'end', 'request_context', 'invoke_subrequest', 'invoke_request',
+             'prepare', 'get_root', 'closer', 'commit', '__enter__', '__exit__', 'finished_callbacks',
+             'response_callbacks', 'add_finished_callback', 'add_response_callback', '_process_finished_callbacks',
+             '_process_response_callbacks', 'finish_request', 'get_current_request', 'get_current_registry',
+             'invoke_exception_view', 'route_prefix_context', 'make_wsgi_app', 'setup_registry', 'threadlocal'}
+
+
+def anchor_functions(src, rel):
+    import ast
+    out = []
+
+    def walk(node, prefix):
+        for n in ast.iter_child_nodes(node):
+            if isinstance(n, (ast.FunctionDef, ast.AsyncFunctionDef, ast.ClassDef)):
+                q = prefix + n.name
+                if not isinstance(n, ast.ClassDef):
+                    out.append((q, n))
+                walk(n, q + '.')
+    with open(os.path.join(src, rel)) as f:
+        walk(ast.parse(f.read()), '')
+    return out
+
+
+def no_stack_reference(src, problems):
+    """Fail-closed fact behind the assumption "an opaque call leaves the thread-local stack and the callback
+    deques alone", for the callees that live in the anchor files: every function there that is neither
+    translated nor shape-pinned must not mention any identifier of STACK_IDS.  New functions are covered too."""
+    import ast
+    with open(os.path.join(HERE, 'pins.json')) as f:
+        pins = json.load(f)
+    tied = set(TR.TRANSLATED)
+    n = 0
+    for rel in ANCHOR_FILES:
+        pinned = list(pins.get(rel, {}))
+        try:
+            fns = anchor_functions(src, rel)
+        except (OSError, SyntaxError) as e:
+            problems.append('no_stack_reference: cannot parse %s: %s' % (rel, e))
+            continue
+        for q, node in fns:
+            if '%s:%s' % (rel, q) in tied or any(q == pq or q.startswith(pq + '.') for pq in pinned):
+                continue
+            if any(t.startswith('%s:%s.' % (rel, q)) for t in tied):
+                pass        # a translated closure lives inside: the outer function is still scanned below
+            ids = set()
+            for x in ast.walk(node):
+                if isinstance(x, (ast.FunctionDef, ast.AsyncFunctionDef)) and x is not node and \
+                        '%s:%s.%s' % (rel, q, x.name) in tied:
+                    continue
+                if isinstance(x, ast.Name):
+                    ids.add(x.id)
+                elif isinstance(x, ast.Attribute):
+                    ids.add(x.attr)
+            hit = sorted(ids & STACK_IDS)
+            n += 1
+            if hit:
+                problems.append('no_stack_reference: %s:%s (neither translated nor pinned) now mentions %s'
+                                % (rel, q, ', '.join(hit)))
+    return n
+
+
+def binding_facts(src, problems):
+    """module-level / class-level bindings the translation relies on: which object `manager` and
+    `RequestContext` denote in each translated module"""
+    import ast
+
+    def imports(rel, module, name):
+        m = F.Module(src, rel)
+        ok = any(isinstance(st, ast.ImportFrom) and st.module == module and st.level == 0
+                 and any(a.name == name and a.asname is None for a in st.names) for st in m.tree.body)
+        rebound = [st for st in m.tree.body if isinstance(st, (ast.Assign, ast.FunctionDef, ast.ClassDef)) and (
+            getattr(st, 'name', None) == name or any(isinstance(t, ast.Name) and t.id == name
+                                                     for t in getattr(st, 'targets', [])))]
+        if not ok or rebound:
+            problems.append('binding: %s no longer takes `%s` (only) from %s' % (rel, name, module))
+    try:
+        imports('pyramid/view.py', 'pyramid.threadlocal', 'manager')
+        imports('pyramid/config/__init__.py', 'pyramid.threadlocal', 'manager')
+        imports('pyramid/router.py', 'pyramid.threadlocal', 'RequestContext')
+        imports('pyramid/scripting.py', 'pyramid.threadlocal', 'RequestContext')
+        t = F.Module(src, 'pyramid/threadlocal.py')
+        if ast.unparse(t.const_expr('manager')) != 'ThreadLocalManager(default=defaults)':
+            problems.append('binding: threadlocal.manager is no longer ThreadLocalManager(default=defaults)')
+        c = F.Module(src, 'pyramid/config/__init__.py')
+        cls = [n for n in c.tree.body if isinstance(n, ast.ClassDef) and n.name == 'Configurator'][0]
+        attrs = [ast.unparse(st.value) for st in cls.body if isinstance(st, ast.Assign)
+                 and any(isinstance(tg, ast.Name) and tg.id == 'manager' for tg in st.targets)]
+        if attrs != ['manager']:
+            problems.append('binding: Configurator.manager class attribute is no longer the thread-local manager: %r' % attrs)
+        bases = [ast.unparse(b) for b in cls.bases]
+        for need in ('ActionConfiguratorMixin', 'RoutesConfiguratorMixin'):
+            if need not in bases:
+                problems.append('binding: Configurator no longer inherits %s' % need)
+    except Exception as e:
+        problems.append('binding facts unrecognised: %r' % e)
+
+
 def facts(src):
     problems = []
     summary = F.check_shapes(src, os.path.join(HERE, 'pins.json'), problems)
+    summary['no_stack_reference_functions'] = no_stack_reference(src, problems)
+    binding_facts(src, problems)
     try:
         t = TR.translate(src)
         problems += t['problems']
